@@ -2348,6 +2348,9 @@ pub enum UnpackError {
 
 pub fn unpack_columns(mut buf: &[u8]) -> Result<Vec<SqliteValueRef<'_>>, UnpackError> {
     let mut ret = vec![];
+    if !buf.has_remaining() {
+        return Err(UnpackError::Abort);
+    }
     let num_columns = buf.get_u8();
 
     for _i in 0..num_columns {
@@ -2357,6 +2360,10 @@ pub fn unpack_columns(mut buf: &[u8]) -> Result<Vec<SqliteValueRef<'_>>, UnpackE
         let column_type_and_maybe_intlen = buf.get_u8();
         let column_type = ColumnType::from_u8(column_type_and_maybe_intlen & 0x07);
         let intlen = (column_type_and_maybe_intlen >> 3) as usize;
+        if intlen > 8 {
+            // lengths and integers are at most 8 bytes wide
+            return Err(UnpackError::Misuse);
+        }
 
         match column_type {
             Some(ColumnType::Blob) => {
